@@ -83,10 +83,13 @@ def gen_adapter(rng, ms: MapSpec) -> Adapter:
             server = "example.com" + other                 # the other scheme family's default port: part of the origin
         # the configured server_name does not fit the Host header: bind_to_environ warns and binds the subdomain "<invalid>"
         mismatch = not ms.host_matching and rng.random() < 0.12
-        return Adapter(scheme=scheme, server=server, script=rng.choice(SCRIPTS),
+        # a map with a non-empty default_subdomain: it stands in for a subdomain that is None only - a request for the bare domain
+        # (bind_to_environ computes the subdomain "") stays on the bare domain
+        dsub = rng.choice(["www", "api", "de"]) if (not ms.host_matching and not mismatch and rng.random() < 0.3) else None
+        return Adapter(scheme=scheme, server=server, script=rng.choice(SCRIPTS), default_sub=dsub,
                        subdomain=sub, query=rng.choice(ENV_QUERIES), environ=True, host_suffix=suffix, mismatch=mismatch, upgrade=upgrade)
-    # Map.default_subdomain stands in for a subdomain that is not given to Map.bind
-    dsub = rng.choice(["www", "api", "de"]) if (sub is None and not ms.host_matching and rng.random() < 0.3) else None
+    # Map.default_subdomain stands in for a subdomain that is not given to Map.bind (None) - not for "" or any other given one
+    dsub = rng.choice(["www", "api", "de"]) if (not ms.host_matching and rng.random() < 0.3) else None
     return Adapter(scheme=rng.choice(["ws", "wss", "wss", "ws", "https", "http"] if has_ws else SCHEMES), server=rng.choice(SERVERS).lower(),
                    script=rng.choice(SCRIPTS), subdomain=sub, query=rng.choice(QUERIES), default_sub=dsub)
 
